@@ -483,9 +483,14 @@ func (ndb *nodeDB) deleteVersion(version int64, cache *rootkeyCache) error {
 				}
 			}
 			if orphan.nodeKey.nonce == 1 && orphan.nodeKey.version < version {
-				// if the orphan is referred to the previous root, it should be reformatted
-				// to (version, 0), because the root (version, 1) should be removed but not
-				// applied now due to the batch writing.
+				// the orphan is the root of an earlier version. If that version was referred
+				// to by its successor, pruning reformatted it to (version, 0); otherwise it is
+				// still stored under (version, 1). Delete both keys.
+				if !orphan.isLegacy {
+					if err := ndb.deleteFromPruning(ndb.nodeKey(orphan.GetKey())); err != nil {
+						return err
+					}
+				}
 				orphan.nodeKey.nonce = 0
 			}
 			nk := orphan.GetKey()
